@@ -159,8 +159,8 @@ func init() {
 func init() {
 	defProperty(&Property{
 		ID:    "C07",
-		Rules: []string{"WR-PROTO", "WR-ENUM", "WR-SYMS", "WR-FIELDS", "WR-VERSION", "WR-VERBATIM", "EX-DISPATCH", "SIG-GATE", "KI-PROPAGATE", "OWN-MUT", "OWN-CLONE"},
-		Explanation: "Static decision of the finite tables and coverage conditions on which wire fidelity rests, against a frozen copy of the published Biscuit v2 schema (wire constants: message/field numbers and labels, enum members, the 28 default symbols, offset 1024, version 3 - any edit to them is a behaviour change for every other implementation). WR-PROTO: pb/biscuit.proto is parsed and compared field by field and enum by enum with the frozen table, and the generated struct tags (wire kind, number, label, name, oneof) and enum constants of pb/biscuit.pb.go with the same table. WR-ENUM: the encoder and decoder switches for binary/unary operators, term kinds and expression element kinds are extracted clause by clause and must be total over the frozen lists, injective and name-consistent in both directions (datalog.BinaryX <-> pb.OpBinary_X <-> datalog.X{}), which also catches a consistent swap in both directions that round-trips inside this library but breaks interoperability. WR-SYMS: DEFAULT_SYMBOLS equals the frozen list in order, OFFSET is 1024 and never assigned, every threshold constant in Insert/Sym/Index/Str/Var is 1024, builders record Len() of their starting table and split the block's table exactly there. WR-FIELDS: every converter between the library's and the protobuf structures reads every field of its source and sets every field of every result literal. WR-VERSION: the decoder accepts a block only under version>=3 and version<=3 and keeps the declared version; encoders/builders write version 3. OWN-MUT/OWN-CLONE: the token-wide symbol table from which per-block tables are cut is never aliased between a token and its derivations or builders (an aliased table shifts or drops the symbols a sibling block declares on the wire). WR-VERBATIM: derived and re-loaded tokens carry the parent's signed blocks verbatim and Serialize marshals the stored envelope, so re-serialisation reproduces existing blocks byte for byte.",
+		Rules: []string{"WR-PROTO", "WR-ENUM", "WR-SYMS", "WR-FIELDS", "WR-ELEMWISE", "WR-VERSION", "WR-VERBATIM", "EX-DISPATCH", "SIG-GATE", "KI-PROPAGATE", "OWN-MUT", "OWN-CLONE"},
+		Explanation: "Static decision of the finite tables and coverage conditions on which wire fidelity rests, against a frozen copy of the published Biscuit v2 schema (wire constants: message/field numbers and labels, enum members, the 28 default symbols, offset 1024, version 3 - any edit to them is a behaviour change for every other implementation). WR-PROTO: pb/biscuit.proto is parsed and compared field by field and enum by enum with the frozen table, and the generated struct tags (wire kind, number, label, name, oneof) and enum constants of pb/biscuit.pb.go with the same table. WR-ENUM: the encoder and decoder switches for binary/unary operators, term kinds and expression element kinds are extracted clause by clause and must be total over the frozen lists, injective and name-consistent in both directions (datalog.BinaryX <-> pb.OpBinary_X <-> datalog.X{}), which also catches a consistent swap in both directions that round-trips inside this library but breaks interoperability. WR-SYMS: DEFAULT_SYMBOLS equals the frozen list in order, OFFSET is 1024 and never assigned, every threshold constant in Insert/Sym/Index/Str/Var is 1024, builders record Len() of their starting table and split the block's table exactly there. WR-FIELDS: every converter between the library's and the protobuf structures reads every field of its source and sets every field of every result literal. WR-ELEMWISE: every element-wise conversion loop (expressions, terms, facts, rules, queries) writes exactly one output element on every path that continues to the next input element (no input element is skipped or filtered). WR-VERSION: the decoder accepts a block only under version>=3 and version<=3 and keeps the declared version; encoders/builders write version 3. OWN-MUT/OWN-CLONE: the token-wide symbol table from which per-block tables are cut is never aliased between a token and its derivations or builders (an aliased table shifts or drops the symbols a sibling block declares on the wire). WR-VERBATIM: derived and re-loaded tokens carry the parent's signed blocks verbatim and Serialize marshals the stored envelope, so re-serialisation reproduces existing blocks byte for byte.",
 		Decides:     "agreement of schema, generated code, converters and symbol rules with the published wire format; field coverage of all converters; version gate; verbatim carriage of signed blocks",
 		NotDecided:  "byte-level equality of a full round trip and protobuf encoding itself; resolvability of every symbol index for arbitrary block content (only the split point is checked); equality of String() output",
 		Technique:   "table agreement: schema file, struct tags, enum constants and switch clauses extracted from the typed AST and compared with a frozen specification table",
@@ -178,8 +178,8 @@ func init() {
 	})
 	defProperty(&Property{
 		ID:    "C15",
-		Rules: []string{"PR-OPSYM", "PR-KEYWORD", "PR-PARENS", "EX-DISPATCH", "PG-OPMAP", "PN-INDEX", "WR-FIELDS"},
-		Explanation: "Static decision of the structural clauses of C15: the printer's concrete syntax is the parser's. PR-OPSYM: for every operator the composed chain parser token -> operatorMap -> Operator.ToExpr -> biscuit operator -> datalog implementor -> Type() constant -> printer clause is followed (links verified by PG-OPMAP and EX-DISPATCH) and the clause's format string must be the form the parser reads for that very operator: \"%s tok %s\" for infix tokens, \"%s.tok(%s)\" for methods, \"%s.length()\", \"!%s\", \"(%s)\". PR-KEYWORD: the printers of checks, rules, queries and predicates emit 'check if', ' or ', ' <- ', ', ', name(...), $variables, quoted strings, hex: bytes, RFC 3339 dates, %t booleans, and the grammar tags read the same tokens; dates are parsed with the same RFC 3339 layout they are printed with. PR-PARENS: parentheses are printed iff the explicit UnaryParens operator is present, which the parser emits exactly for a parenthesised sub-expression, and Parens evaluates as the identity. PN-INDEX: printing resolves symbols with bounded lookups (never panics on a symbol id). WR-FIELDS: the printed block content (facts, rules, checks) is what Unmarshal reconstructs, field for field.",
+		Rules: []string{"PR-OPSYM", "PR-KEYWORD", "PR-PARENS", "EX-DISPATCH", "PG-OPMAP", "PN-INDEX", "WR-FIELDS", "WR-ELEMWISE", "WR-SYMS"},
+		Explanation: "Static decision of the structural clauses of C15: the printer's concrete syntax is the parser's. PR-OPSYM: for every operator the composed chain parser token -> operatorMap -> Operator.ToExpr -> biscuit operator -> datalog implementor -> Type() constant -> printer clause is followed (links verified by PG-OPMAP and EX-DISPATCH) and the clause's format string must be the form the parser reads for that very operator: \"%s tok %s\" for infix tokens, \"%s.tok(%s)\" for methods, \"%s.length()\", \"!%s\", \"(%s)\". PR-KEYWORD: the printers of checks, rules, queries and predicates emit 'check if', ' or ', ' <- ', ', ', name(...), $variables, quoted strings, hex: bytes, RFC 3339 dates, %t booleans, and the grammar tags read the same tokens; dates are parsed with the same RFC 3339 layout they are printed with. PR-PARENS: parentheses are printed iff the explicit UnaryParens operator is present, which the parser emits exactly for a parenthesised sub-expression, and Parens evaluates as the identity. PN-INDEX: printing resolves symbols with bounded lookups (never panics on a symbol id). WR-FIELDS / WR-ELEMWISE: the printed block content (facts, rules, checks, every expression operator including the explicit parenthesis operators) is what Unmarshal reconstructs, field for field and element for element, so the text is the same before and after serialisation. WR-SYMS: symbol and variable lookups accept exactly the valid index range (no valid name is printed as invalid).",
 		Decides:     "agreement of every operator symbol, keyword and delimiter between printer and parser; grouping printed iff parsed; panic-freedom of symbol resolution while printing",
 		NotDecided:  "printer-after-parser identity over all expressions and terms (string escaping, set element printing, date formatting are run-time formatting questions); Block.Code's statement separators",
 		Technique:   "table agreement between printer switch clauses / string literals and grammar struct tags",
@@ -197,16 +197,16 @@ func init() {
 	})
 	defProperty(&Property{
 		ID:    "C12",
-		Rules: []string{"DT-MAPRANGE", "DT-SOURCES", "FS-DEDUP", "FX-EQUAL", "AZ-REINTERN", "OWN-MUT", "EN-APPLYALL"},
-		Explanation: "Static decision of necessary conditions of C12 (thin claim). DT-MAPRANGE: every range over a map in packages biscuit and datalog has an order-insensitive body (map inserts, constant-result existence tests), so no result depends on Go's randomised map order. DT-SOURCES: no function reachable from the authorizer's methods calls math/rand, crypto/rand, time.Now/Since; the only selects are non-blocking cancellation polls, the documented deadline-versus-result select of World.Run and the producer's send-or-stop select. FS-DEDUP: facts enter a fact set only through Insert, which appends only after a full-range structural-equality scan found no equal fact - duplicating a fact is a no-op and re-loading the token on a second Authorize is idempotent. FX-EQUAL: term equality is type-strict. AZ-REINTERN: all content is re-interned into the authorizer's table (interning is injective), so consistent renaming yields the same joins. OWN-MUT: no package-level mutable state (caches keyed by symbol index, shared buffers) is consulted by evaluation. EN-APPLYALL: every rule is applied in every iteration regardless of its position.",
+		Rules: []string{"DT-MAPRANGE", "DT-SOURCES", "FS-DEDUP", "FX-EQUAL", "AZ-REINTERN", "AZ-DISJ", "OWN-MUT", "EN-APPLYALL"},
+		Explanation: "Static decision of necessary conditions of C12 (thin claim). DT-MAPRANGE: every range over a map in packages biscuit and datalog has an order-insensitive body (map inserts, constant-result existence tests), so no result depends on Go's randomised map order. DT-SOURCES: no function reachable from the authorizer's methods calls math/rand, crypto/rand, time.Now/Since; the only selects are non-blocking cancellation polls, the documented deadline-versus-result select of World.Run and the producer's send-or-stop select. FS-DEDUP: facts enter a fact set only through Insert, which appends only after a full-range structural-equality scan found no equal fact - duplicating a fact is a no-op and re-loading the token on a second Authorize is idempotent. FX-EQUAL: term equality is type-strict. AZ-REINTERN: all content is re-interned into the authorizer's table (interning is injective), so consistent renaming yields the same joins. OWN-MUT: no package-level mutable state (caches keyed by symbol index, shared buffers) is consulted by evaluation. EN-APPLYALL: every rule is applied in every iteration regardless of its position. AZ-DISJ: every check is evaluated with its own freshly initialised success flag and every check of a collection is evaluated, so the order of checks cannot matter.",
 		Decides:     "absence of order- and time-dependent sources in the evaluation path; set semantics of the fact store; no hidden shared state between evaluations",
 		NotDecided:  "permutation invariance of the join enumeration and of the fixpoint themselves (needs the exactness of C05, which is not statically decided); that a second Authorize sees the same rules (authority rules are dropped by ResetRules after the first call while their derived facts persist)",
 		Technique:   "effect / nondeterminism-source enumeration over the call graph + loop-shape analysis of the fact store",
 	})
 	defProperty(&Property{
 		ID:    "C05",
-		Rules: []string{"EN-APPLYALL", "EN-CONSUME", "EN-MATCH", "FS-DEDUP", "FX-UNIFY", "FX-EQUAL", "LM-SENTINEL"},
-		Explanation: "Static decision of structural necessary conditions of C05 (thin claim; the join enumeration itself is NOT decided). EN-APPLYALL: in every iteration of World.Run a full-range loop applies every rule to the world's current facts, leaves early only by ending the evaluation, and all facts derived in the iteration are merged (InsertAll) before the fixpoint test. LM-SENTINEL: success is reported only when an iteration added no fact. EN-CONSUME: Rule.Apply joins the rule's whole body and all expressions, inserts an instance of a clone of the rule head for every combination it receives, and leaves its receive loop early only with an error. EN-MATCH: Predicate.Match returns true only after a complete positional scan with equal name and arity, passing a position only if one side is a variable or the constants are Equal. FX-UNIFY: the consistency verdict of a repeated variable (MatchedVariables.Insert) controls a branch. FX-EQUAL: term equality is type-strict for all seven kinds. FS-DEDUP: the fact store is a set (structural de-duplication over the full range).",
+		Rules: []string{"EN-APPLYALL", "EN-CONSUME", "EN-MATCH", "EN-UNIFY", "EN-EXITS", "FS-DEDUP", "FX-UNIFY", "FX-EQUAL", "LM-SENTINEL"},
+		Explanation: "Static decision of structural necessary conditions of C05 (thin claim; the join enumeration itself is NOT decided). EN-APPLYALL: in every iteration of World.Run a full-range loop applies every rule to the world's current facts, leaves early only by ending the evaluation, and all facts derived in the iteration are merged (InsertAll) before the fixpoint test. LM-SENTINEL: success is reported only when an iteration added no fact. EN-CONSUME: Rule.Apply joins the rule's whole body and all expressions, inserts an instance of a clone of the rule head for every combination it receives, and leaves its receive loop early only with an error. EN-MATCH: Predicate.Match returns true only after a complete positional scan with equal name and arity, passing a position only if one side is a variable or the constants are Equal. EN-UNIFY: in the join, variables are bound by visiting every term position of every body predicate (full ranges) and binding the variable at position j to the matched fact's term at the same position j. EN-EXITS: the enumeration goroutine ends only for one of the enumerated reasons (index odometer exhausted, no facts, head variable missing from the body, expression error sent, expression-only rule evaluated once, consumer gone); any other early termination loses combinations. FX-UNIFY: the consistency verdict of a repeated variable (MatchedVariables.Insert) controls a branch. FX-EQUAL: term equality is type-strict for all seven kinds. FS-DEDUP: the fact store is a set (structural de-duplication over the full range).",
 		Decides:     "the skeleton of naive evaluation (all rules, every iteration, all received combinations, success only at fixpoint) and the local matching/unification/equality predicates",
 		NotDecided:  "exactness of the join odometer (combine / advanceIndexes): a skipped last fact or a lost carry is invisible to any structural rule short of re-proving the algorithm, which needs a symbolic or model-based argument from another technique family; expression results (C06)",
 		Technique:   "loop-shape and guard analysis over go/ssa of the evaluation skeleton (not of the join enumeration)",
